@@ -63,24 +63,31 @@ ScalarDiff(rec) ==
 
 \* ---------------------------------------------------------------- vector ALU
 HasRef(nm) == nm \in IntNames \/ IsCmp(nm) \/ IsFSel(nm) \/ IsFloatArith(nm) \/ nm = "v_readfirstlane_b32"
+              \/ nm \in PkNames
 
-VecSem(nm, rec, k) ==
+VecSem0(nm, rec, k) ==
   IF Has(rec, "dsel") THEN VSdwaSem(nm, rec, k)
   ELSE IF nm \in IntNames THEN VIntSem(nm, rec, k)
   ELSE IF IsCmp(nm) THEN [d |-> <<>>, cc |-> VCmpSem(nm, rec, k)]
   ELSE IF IsFSel(nm) THEN VFSelSem(nm, rec, k)
+  ELSE IF nm \in PkNames THEN VPkSem(nm, rec, k)
   ELSE VFloatSem(nm, rec, k)
+
+VecSem(nm, rec, k) == ModifiedLane(nm, rec, VecSem0(nm, rec, k))
 
 Idle == [d |-> <<>>, cc |-> 0]
 
 \* does the observed lane value x satisfy the lane result r?
-LaneOk(r, x) == \/ Has(r, "skip") /\ r.skip
-                \/ Has(r, "nan") /\ r.nan /\ F32IsNaN(x)
-                \/ Has(r, "nan64") /\ r.nan64 /\ F64IsNaN(x)
-                \/ Has(r, "nan16") /\ r.nan16 /\ x[2] = 0 /\ (x[1] \div 1024) % 32 = 31 /\ x[1] % 1024 # 0
-                \/ ~(Has(r, "nan") /\ r.nan) /\ ~(Has(r, "nan64") /\ r.nan64) /\ ~(Has(r, "nan16") /\ r.nan16) /\ x = r.d
-                \/ Has(r, "alt") /\ x = r.alt
-                \/ Has(r, "zero") /\ F32IsZero(r.d) /\ F32IsZero(x)
+LaneOk1(r, x) == \/ Has(r, "skip") /\ r.skip
+                 \/ Has(r, "nan") /\ r.nan /\ F32IsNaN(x)
+                 \/ Has(r, "nan64") /\ r.nan64 /\ F64IsNaN(x)
+                 \/ Has(r, "nan16") /\ r.nan16 /\ x[2] = 0 /\ (x[1] \div 1024) % 32 = 31 /\ x[1] % 1024 # 0
+                 \/ ~(Has(r, "nan") /\ r.nan) /\ ~(Has(r, "nan64") /\ r.nan64) /\ ~(Has(r, "nan16") /\ r.nan16) /\ x = r.d
+                 \/ Has(r, "alt") /\ x = r.alt
+                 \/ Has(r, "zero") /\ r.zero /\ F32IsZero(r.d) /\ F32IsZero(x)
+                 \/ Has(r, "zero64") /\ r.zero64 /\ F64IsZero(r.d) /\ F64IsZero(x)
+\* a packed result: each half against its own lane result
+LaneOk(r, x) == IF Has(r, "pk") THEN LaneOk1(r.pk[1], Lo32(x)) /\ LaneOk1(r.pk[2], Hi32(x)) ELSE LaneOk1(r, x)
 
 FirstActive(st) == IF IsZero(st.exec) THEN 1 ELSE FindLow1(st.exec) + 1
 
@@ -276,6 +283,11 @@ LaneDiff(rec, prev) ==
                   \/ Has(rec, "mem") /\ rec.mem.post # prev.mem.post)
               THEN {"perm"} ELSE {}
   IN IF rec.e # "X" \/ ~IsVecFmt(rec.f) THEN {}
-     ELSE IF Has(rec, "panic") THEN {"panic"}
+     \* a panic is reported together with what the state it left behind shows (a panic after the lane loop must
+     \* not hide a modified inactive lane)
+     \* OMOD # 0: the ALUs refuse every such instruction whatever the lanes hold ("Output modifiers are not
+     \* supported", reported by C03 as {feat: omod}); that refusal is no lane matter, the state it leaves behind is
+     ELSE IF Has(rec, "panic") THEN (IF Has(rec, "omod") /\ rec.omod # 0 THEN {} ELSE {"panic"})
+                                    \cup inact \cup fl \cup (IF rec.other # 0 THEN {"other"} ELSE {})
      ELSE inact \cup fl \cup lanefn \cup perm \cup (IF rec.other # 0 THEN {"other"} ELSE {})
 =============================================================================
